@@ -686,3 +686,9 @@ func (e *StreamEncoder) Encode(firstNonce []byte, m Meta, payload, pad1, pad2 []
 	out = append(out, pad2...)
 	return out
 }
+
+// SealMeta returns nonce || sealed metadata (the first 72 bytes of a segment) under key with the given literal nonce.
+func SealMeta(key, nonce []byte, m Meta) []byte {
+	out := append([]byte(nil), nonce...)
+	return append(out, seal(key, nonce, m.Marshal())...)
+}
